@@ -16,7 +16,7 @@ Record rstep := {
   r_didx : list (Z * Z);
   r_seq : Z;
   r_prm : params;
-  r_probes : list (mode * Z * probe * pres)
+  r_probes : list (mode * via * Z * probe * pres)
 }.
 
 Record rcase := {
@@ -83,7 +83,7 @@ Definition state_agrees (s : state) (x : rstep) : bool :=
   && (mseq s =? r_seq x) && params_eqb (prm s) (r_prm x).
 
 Definition probes_agree (c : rcase) (s : state) (x : rstep) : bool :=
-  forallb (fun q => match q with (md, a, p, o) => pres_eqb (probe_result (rc_hrp c) md s a p) o end) (r_probes x).
+  forallb (fun q => match q with (md, v, a, p, o) => pres_eqb (probe_via (rc_hrp c) md v s a p) o end) (r_probes x).
 
 Definition step_model (c : rcase) (s : state) (k : skind) : state * res :=
   match k with
